@@ -290,7 +290,7 @@ def run(chk):
                         "frame_breaks": sorted(out["breaks"])})
     os.remove(dump)
     dump = chk.scratch.file("stacked.dump")
-    r = tlc.must_pass(tlc.run("StackedMC", "StackedMC.cfg", chk.scratch, dump=dump, workers=4, timeout=600), "StackedMC")
+    r = tlc.must_pass(tlc.run("StackedMC", "StackedMC.thorough.cfg" if thorough else "StackedMC.cfg", chk.scratch, dump=dump, workers=8, timeout=1800), "StackedMC")
     chk.add_tlc(r, "StackedMC")
     for st in tlaval.parse_dump(dump, want=lambda b: "done = TRUE" in b):
         sc, out = st["sc"], st["out"]
